@@ -224,6 +224,15 @@ theorem foldl_invoke_not_mem {β : Type} (F : Nat → List β → β) (g : PG) (
     have : v ≠ x := fun e => h (by simp [e])
     simp [invoke, this]
 
+/-- the executable fold over `Mem` is the fold over plain functions -/
+theorem foldl_invokeM {β : Type} (F : Nat → List β → β) (g : PG) (l : List Nat) (buf : Nat → β) :
+    (l.foldl (invokeM F g) ⟨buf⟩).get = l.foldl (invoke F g) buf := by
+  induction l generalizing buf with
+  | nil => rfl
+  | cons x t ih =>
+    simp only [List.foldl_cons]
+    exact ih (invoke F g buf x)
+
 /-- invoking the nodes of a duplicate-free list in which every node comes after all of its inputs leaves
     every node with the functional value of its inputs' final buffers -/
 theorem foldl_invoke_functional {β : Type} (F : Nat → List β → β) (g : PG) :
